@@ -5,7 +5,10 @@ use autosar_data_specification::{
     AttributeName, AttributeSpec, AutosarVersion, ContentMode, ElementMultiplicity, ElementName,
 };
 use fxhash::FxHashMap;
+#[cfg(not(feature = "verif"))]
 use parking_lot::RwLock;
+#[cfg(feature = "verif")]
+use crate::verif::RwLock;
 use smallvec::SmallVec;
 use std::collections::HashSet;
 use std::sync::Arc;
